@@ -217,6 +217,39 @@ def gen_http_case(rng):
     return case
 
 
+
+def http_grid_cases():
+    """HTTP cache: every combination of the freshness headers (max-age, Expires, Date, Age) on the first answer, the
+    second request at the instants around the end of every lifetime a (right or wrong) age calculation could come
+    to: lifetime minus Age, minus the apparent age (now - Date), minus neither"""
+    cases = []
+    for ma in (None, 0, 10, 60):
+        for ex in (None, 20, 60):
+            for date in (None, 0, -50, -120, 20):
+                for age in (None, 0, 5, 100):
+                    if ma is None and ex is None and (date is not None or age is not None) and (date, age) != (0, 0):
+                        continue
+                    resp = {}
+                    if ma is not None:
+                        resp["maxage"] = ma
+                    if ex is not None:
+                        resp["expires"] = ex
+                    if date is not None:
+                        resp["date"] = date
+                    if age is not None:
+                        resp["age"] = age
+                    life = ma if ma is not None else (ex - (date or 0) if ex is not None else 30)
+                    ends = {life, life - (age or 0), life + (date or 0), life - max(age or 0, -(date or 0), 0)}
+                    if ex is not None:
+                        ends.add(ex)
+                    dts = sorted({d for e in ends for d in (e - 1, e, e + 1) if 0 < d <= 200} | {1})
+                    for dt in dts:
+                        cases.append({"fam": "c10http", "store": "virtual", "dttl": 30, "method": "GET",
+                                      "steps": [{"dt": 0, "key": 0, "resp": dict(resp)},
+                                                {"dt": dt, "key": 0, "resp": {"maxage": 60}}]})
+    return cases
+
+
 def gen_store_session(rng, kind):
     ops = []
     adv = 0
